@@ -89,6 +89,10 @@ fn touching(u: &Unk) -> Vec<E> {
             E::not(E::attr(c.clone(), "n")),
             E::and(E::attr(c.clone(), "n"), E::Bool(true)),
             E::or(E::Bool(false), E::attr(c.clone(), "n")),
+            // `true && <residual>` must keep its `true &&`: it is what type-checks the residual
+            // (after hand mutant c13_true_and_residual_optimised)
+            E::and(E::Bool(true), E::attr(c.clone(), "n")),
+            E::or(E::attr(c.clone(), "n"), E::Bool(false)),
             E::ite(E::attr(c.clone(), "n"), E::Bool(true), E::Bool(false)),
             E::bin(BinOp::Contains, E::attr(c.clone(), "n"), E::Long(1)),
             E::IsEmpty(b(E::attr(c.clone(), "n"))),
@@ -237,6 +241,7 @@ fn sigmas(u: &Unk) -> Vec<Sigma> {
                 Val::Long(1),
                 Val::Long(3),
                 Val::Long(i64::MAX),
+                Val::Long(7), // equal to the non-boolean constant operand
                 Val::Str("x".into()),
                 // the unknown is untyped: any value is an admissible completion
                 Val::Bool(true),
